@@ -22,6 +22,7 @@ EXPLANATION = (
     ' (as built) D1 / D2 / D8 are decided on the extracted segment model of the conversion vectors for every small count assignment (NSYNC = 0 and empty nidq categories included; numpy reads x[:-0] as empty); D5 evaluates the max-int lookup as a decision table over (stream, version argument, version found in the metadata) and checks the call sites that pass a version.'
     ' (E9 as built) whole-table text columns (zip(*re.findall(...))) and row tables selected by argsort of the channel column are modelled: a numeric key keeps table order, a text key orders lexicographically (reported as a model finding).'
     ' (DS as built) a parse kept in a module-level cache and handed out as a shallow copy shares its list values: in-place edits of those by NP2Converter / NP2Reconstructor metadata writers are reported; sharing is call-sensitive (a cache flag left off prunes the cached branch).'
+    " (D9) a fast path that gives every channel the first IMRO entry's gains must establish uniformity by counting entries with a pattern closed by a literal on both sides; run-time branches of the conversion are explored both ways."
 )
 ASSUMPTIONS = [
     "SpikeGLX IMRO entry layout for NP1: (chan bank ref apgain lfgain ...) - AP gain is field 3, LF gain field 4 (0-based)",
